@@ -6,13 +6,13 @@
 package dkgchk
 
 import (
+	"crypto/sha256"
 	"encoding/json"
 	"fmt"
 	"math/big"
 	"os"
 	"path/filepath"
 	"reflect"
-	"crypto/sha256"
 	"sort"
 	"strings"
 
@@ -226,33 +226,60 @@ func Run(cfg Config) (int, error) {
 // ---- C07 ----
 
 func (r *runner) c07() error {
-	r.res.Rule = "complete key generations over the real shuttermint app and n real keyper loops: sizes 3/2 (mostly), 4/3, 4/2, 5/3; Byzantine subsets of size 0..n-t with strategies drawn from eval {correct, wrong, none} per victim x commitment {correct, none, too few / too many coefficients, twice, two different} x false accusations x apology {correct, wrong, none} x each message in phase or held until its phase is over; random keyper order and block schedules (transactions delayed up to 2 blocks) in a third of the runs. Distinct by model line (the view a keyper computed its result on)."
+	r.res.Rule = "complete key generations over the real shuttermint app and n real keyper loops: sizes 3/2 (mostly), 4/3, 4/2, 5/3; Byzantine subsets of size 0..n-t with strategies drawn from eval {correct, wrong, none} per victim x commitment {correct, none, too few / too many coefficients, twice, two different} x false accusations x apology {correct, wrong, none} x each message as sent, in the last block of its phase, or held until its phase is over x evaluations before or after the commitment; honest keypers whose messages land in the last block of their phases; a scripted list first (all honest at every edge placement, single false accusation, evaluations-first with one wrong value, single wrong value with correct / wrong apology, each for every choice of the Byzantine keyper); random keyper order and block schedules (transactions delayed up to 2 blocks) in a third of the runs. Distinct by model line (the view a keyper computed its result on)."
 	rnd := hx.NewRand(r.cfg.Seed ^ 0xC07)
 	runs := 60
 	if r.cfg.Tier == "thorough" {
 		runs = 2500
 	}
 	sizes := [][2]int{{3, 2}, {3, 2}, {3, 2}, {4, 3}, {4, 2}, {5, 3}}
-	for i := 0; i < runs && !r.stop; i++ {
-		sz := sizes[rnd.Intn(len(sizes))]
-		n, t := sz[0], sz[1]
-		cfg := dkgrig.Config{N: n, T: t, Seed: rnd.U64(), Byzantine: map[int]dkgrig.Strategy{}}
-		nbyz := 0
-		switch {
-		case i == 0 || rnd.Chance(20):
-		case rnd.Chance(15):
-			nbyz = n - t + 1 // more than the key generation tolerates: agreement among those who succeed still has to hold
-		default:
-			nbyz = 1 + rnd.Intn(n-t)
-		}
-		for _, b := range rnd.Perm(n)[:nbyz] {
-			cfg.Byzantine[b] = dkgrig.RandomStrategy(rnd, n, b)
-		}
-		shuffled := rnd.Chance(33)
-		if shuffled {
-			sub := rnd.Fork()
-			cfg.Schedule = dkgrig.RandomSchedule(sub, 60, 2)
-			cfg.Order = dkgrig.RandomOrder(sub)
+	scripted := c07Scripted()
+	for i := 0; i < runs+len(scripted) && !r.stop; i++ {
+		var cfg dkgrig.Config
+		var n, t, nbyz int
+		shuffled := false
+		if i < len(scripted) {
+			cfg = scripted[i]
+			cfg.Seed = rnd.U64()
+			n, t = cfg.N, cfg.T
+			for _, s := range cfg.Byzantine {
+				if !s.Faithful {
+					nbyz++
+				}
+			}
+		} else {
+			sz := sizes[rnd.Intn(len(sizes))]
+			n, t = sz[0], sz[1]
+			cfg = dkgrig.Config{N: n, T: t, Seed: rnd.U64(), Byzantine: map[int]dkgrig.Strategy{}}
+			switch {
+			case rnd.Chance(20):
+			case rnd.Chance(15):
+				nbyz = n - t + 1 // more than the key generation tolerates: agreement among those who succeed still has to hold
+			default:
+				nbyz = 1 + rnd.Intn(n-t)
+			}
+			perm := rnd.Perm(n)
+			for _, b := range perm[:nbyz] {
+				cfg.Byzantine[b] = dkgrig.RandomStrategy(rnd, n, b)
+			}
+			if rnd.Chance(40) {
+				// honest keypers whose messages land at the end of their phases (the honest sender puts the
+				// commitment before the evaluations, so a commitment at the edge takes the evaluations with it)
+				for _, h := range perm[nbyz:] {
+					if rnd.Chance(30) {
+						continue
+					}
+					eval := rnd.Chance(60)
+					commit := eval && rnd.Chance(50)
+					cfg.Byzantine[h] = dkgrig.FaithfulStrategy(n, commit, eval, rnd.Chance(40), rnd.Chance(40))
+				}
+			}
+			shuffled = rnd.Chance(33)
+			if shuffled {
+				sub := rnd.Fork()
+				cfg.Schedule = dkgrig.RandomSchedule(sub, 60, 2)
+				cfg.Order = dkgrig.RandomOrder(sub)
+			}
 		}
 		out, err := dkgrig.Run(cfg)
 		if err != nil {
@@ -318,6 +345,61 @@ func (r *runner) c07() error {
 		}
 	}
 	return nil
+}
+
+// c07Scripted are the runs every tier starts with: everybody honest with the default placement and with
+// every message in the last block of its phase, and the adversaries whose effect depends on one message
+// (false accusation answered correctly; evaluations before the commitment with one wrong value and a correct
+// apology; a commitment in the last dealing block).
+func c07Scripted() []dkgrig.Config {
+	var out []dkgrig.Config
+	all := func(n, t int, f func(i int) (dkgrig.Strategy, bool)) {
+		cfg := dkgrig.Config{N: n, T: t, Byzantine: map[int]dkgrig.Strategy{}}
+		for i := 0; i < n; i++ {
+			if s, ok := f(i); ok {
+				cfg.Byzantine[i] = s
+			}
+		}
+		out = append(out, cfg)
+	}
+	all(3, 2, func(int) (dkgrig.Strategy, bool) { return dkgrig.Strategy{}, false })
+	for _, e := range [][4]bool{{true, true, true, true}, {false, true, false, false}, {true, true, false, false}, {false, false, true, true}} {
+		e := e
+		all(3, 2, func(int) (dkgrig.Strategy, bool) { return dkgrig.FaithfulStrategy(3, e[0], e[1], e[2], e[3]), true })
+		all(4, 3, func(i int) (dkgrig.Strategy, bool) { return dkgrig.FaithfulStrategy(4, e[0], e[1], e[2], e[3]), i != 0 })
+	}
+	for b := 0; b < 3; b++ {
+		b := b
+		v := (b + 1) % 3
+		// false accusation of v, everything else as computed
+		all(3, 2, func(i int) (dkgrig.Strategy, bool) {
+			s := dkgrig.HonestStrategy(3)
+			s.Accuse[v] = true
+			return s, i == b
+		})
+		// evaluations first, a wrong value for v only, apologising correctly
+		for _, edge := range []bool{false, true} {
+			edge := edge
+			all(3, 2, func(i int) (dkgrig.Strategy, bool) {
+				s := dkgrig.HonestStrategy(3)
+				s.Eval[v] = dkgrig.EvalWrong
+				s.EvalFirst = true
+				s.EdgeEval, s.EdgeCommit = edge, edge
+				return s, i == b
+			})
+		}
+		// a wrong value for v only with the commitment first, apologising correctly / wrongly
+		for _, apo := range []dkgrig.ApologyMode{dkgrig.ApologyCorrect, dkgrig.ApologyWrong} {
+			apo := apo
+			all(3, 2, func(i int) (dkgrig.Strategy, bool) {
+				s := dkgrig.HonestStrategy(3)
+				s.Eval[v] = dkgrig.EvalWrong
+				s.Apology[v] = apo
+				return s, i == b
+			})
+		}
+	}
+	return out
 }
 
 // corrupt is the statement's notion of a dealer that does not take part, computed from the chain-visible part
